@@ -1872,16 +1872,63 @@ class EntityInst(Instance):
             ");",
         ]
 
+    @staticmethod
+    def _vector_kind(vhdl_type) -> str | None:
+        if not (isinstance(vhdl_type, type) and issubclass(vhdl_type, BitVector)):
+            return None
+        if issubclass(vhdl_type, Unsigned):
+            return "unsigned"
+        if issubclass(vhdl_type, Signed):
+            return "signed"
+        return "std_logic_vector"
+
+    @staticmethod
+    def _actual_vhdl_type(actual):
+        # type of the VHDL name printed by format_target:
+        # typed views (.unsigned/.signed/.bitvector) are not part of that name
+        # and a slice of a vector has the vector type of the sliced object
+        vhdl_type = type(TypeQualifier.decay(actual._root))
+
+        for ref in actual._ref_spec:
+            if issubclass(vhdl_type, Array):
+                vhdl_type = vhdl_type._elemtype_
+            elif isinstance(ref, Offset):
+                vhdl_type = Bit
+
+        return vhdl_type
+
     def _port_map(self) -> list[str]:
         if len(self._ports) == 0:
             return []
 
         port_map: list[Tuple[str, str]] = []
 
-        for port_name in self._entity.ports():
-            port_map.append(
-                (port_name, self._scope.format_target(self._ports[port_name]))
+        for port_name, port in self._entity.ports().items():
+            actual = self._ports[port_name]
+            formal_str = port_name
+            actual_str = self._scope.format_target(actual)
+
+            formal_kind = self._vector_kind(type(TypeQualifier.decay(port)))
+            actual_kind = (
+                self._vector_kind(self._actual_vhdl_type(actual))
+                if isinstance(actual, TypeQualifier)
+                else None
             )
+
+            if (
+                formal_kind is not None
+                and actual_kind is not None
+                and formal_kind != actual_kind
+            ):
+                # the connected object is a typed view or a slice of an object
+                # declared with a different vector type: convert in the association
+                # (inputs: the actual, outputs: the formal)
+                if not port.is_input():
+                    formal_str = f"{actual_kind}({port_name})"
+                if not port.is_output():
+                    actual_str = f"{formal_kind}({actual_str})"
+
+            port_map.append((formal_str, actual_str))
 
         line_end = [","] * (len(port_map) - 1) + [""]
 
